@@ -237,6 +237,8 @@ class Engine:
                 except Exception:
                     pass
                 return ("sym", "%s:%s" % (base[1], node.attr))
+            if base[1] in S.GLOBALS:
+                return None          # attribute of a global *value*: evaluated dynamically
             return ("sym", base[1] + "." + node.attr)
         return None
 
@@ -503,7 +505,7 @@ class Engine:
                 return
             fty, owner = S.find_field(base.ty.name, attr)
             if fty is not None:
-                yield from self.null_guard(st, base, attr, line, lambda s: iter([(s, s.get_field(base, attr))]))
+                yield from self.null_guard(st, base, attr, line, lambda s: iter([(s, self.wf(s, s.get_field(base, attr)))]))
                 return
             mk = S.find_method(base.ty.name, attr)
             if mk or (is_listlike(base.ty) or is_dictlike(base.ty)):
@@ -522,6 +524,15 @@ class Engine:
         if k == "closure":
             raise Unsupported("attribute %s of a closure" % attr)
         raise Unsupported("attribute %s of %s (line %d)" % (attr, base.ty, line))
+
+    def wf(self, st, v: V) -> V:
+        """Heap well-formedness (R7): every reference stored in the heap is None or allocated."""
+        if v.ty.is_ref and v.t is not None and not z3.is_int_value(v.t):
+            st.assume(z3.And(v.t >= 0, v.t < st.alloc))
+        elif v.ty.kind == "tuple":
+            for i in v.items:
+                self.wf(st, i)
+        return v
 
     def null_guard(self, st, base, attr, line, cont):
         if base.ty.nullable or getattr(base, "_maybe_none", False):
@@ -590,7 +601,7 @@ class Engine:
             k = coerce(idx, kt)
             for st2, present in self.branch(st, z3.Select(dom, k.t)):
                 if present:
-                    yield st2, V(vt, z3.Select(val, k.t))
+                    yield st2, self.wf(st2, V(vt, z3.Select(val, k.t)))
                 else:
                     yield st2, Raised(Exc(KeyError, origin="line %d" % line))
             return
@@ -613,7 +624,7 @@ class Engine:
         i = ops.norm_index(ln, idx.t)
         for st2, ok in self.branch(st, z3.And(i >= 0, i < ln)):
             if ok:
-                yield st2, V(s.ty.args[0], s.t[i])
+                yield st2, self.wf(st2, V(s.ty.args[0], s.t[i]))
             else:
                 yield st2, Raised(Exc(IndexError, origin="line %d" % line))
 
@@ -815,6 +826,14 @@ class Engine:
         if h is not None:
             yield from h(self, st, args, kwargs, n)
             return
+        if q.endswith(".__new__") and args and args[0].ty.kind == "class":
+            cname = args[0].py.split(":")[1]
+            obj = st.new_ref(OBJ(cname))
+            cs = S.CLASSES[cname]
+            if cs.listlike:
+                st.list_set(obj, z3.Empty(z3.SeqSort(sort_of(cs.listlike))))
+            yield st, obj
+            return
         real = self.real_object(q)
         if isinstance(real, type) and issubclass(real, BaseException):
             # exception class without schema: opaque exception object
@@ -937,11 +956,12 @@ class Engine:
             self.oblige(st, se.bool_of(cl.expr), "pre:%s:%s" % (c.key.split(":")[-1], cl.label),
                         "P", "call-pre", "%s requires %s (%s)" % (c.key, cl.expr, what))
         old = st.fork()
-        # 2. havoc the frame
-        self.havoc_frame(st, c.modifies, env, old)
+        # 2. havoc the frame (the callee may allocate: bump the allocation counter first so
+        #    havocked references are constrained to the post-call allocated range)
         a2 = z3.Int("alloc!%d" % fresh(INT).t.hash())
         st.assume(a2 >= st.alloc)
         st.alloc = a2
+        self.havoc_frame(st, c.modifies, env, old)
         res = fresh(c.returns, "res") if c.returns is not None else vnone()
         # 3. exceptional outcomes
         for ename, spec in c.raises.items():
@@ -1014,6 +1034,7 @@ class Engine:
             cur = old.get_field(base, n.attr)
             if pointer or not (is_listlike(fty) or is_dictlike(fty) or fty.kind == "set"):
                 st.havoc_loc(st._fkey(owner, n.attr), fty, base.t)
+                self.wf(st, st.get_field(base, n.attr))
                 return
             self.havoc_container(st, cur)
             return
@@ -1032,7 +1053,12 @@ class Engine:
     def havoc_container(self, st, v: V):
         if is_listlike(v.ty):
             et = elem_ty(v.ty)
-            st.list_set(v, fresh(SEQ(et), "hvl").t)
+            hv = fresh(SEQ(et), "hvl").t
+            st.list_set(v, hv)
+            if et.is_ref:
+                i = z3.Int("i!hvwf")
+                st.assume(z3.ForAll([i], z3.Implies(z3.And(i >= 0, i < z3.Length(hv)),
+                                                    z3.And(hv[i] >= 0, hv[i] < st.alloc))))
         elif is_dictlike(v.ty):
             kt, vt = dict_tys(v.ty)
             st.dict_set(v, z3.Const("hvd!%d" % fresh(INT).t.hash(), z3.ArraySort(sort_of(kt), z3.BoolSort())),
@@ -1555,10 +1581,10 @@ class Engine:
                     if nm in fr:
                         fr[nm] = hv
                         break
-        self.havoc_frame(st, ls["modifies"], self.spec_env(pre_loop), pre_loop)
         a2 = z3.Int("alloc!%d" % fresh(INT).t.hash())
         st.assume(a2 >= st.alloc)
         st.alloc = a2
+        self.havoc_frame(st, ls["modifies"], self.spec_env(pre_loop), pre_loop)
         if source is not None:
             i = fresh(INT, idx_name)
             st.ghost[idx_name] = i
